@@ -101,6 +101,9 @@ def run_C11(ctx):
     r = tlc_client(ctx, "ClientRuns", cfgs([-1, 1, 2]), [P, P + ["data", "COLON", "y"], P + P], ["clean", "errctx", "errwrapeof", "erriou", "cancel_eof", "cancel_cb"],
                    ["transport", "transport_ctx", "stream"], 4 if q else 5, False)
     drive_client(ctx, r.stdout_path, "runs", "result,events,waits", "whole", agg)
+    # Connect called again on the same Connection after retries were exhausted: the new call has the full number of retries again
+    r = tlc_client(ctx, "ClientReasonsReconnect", cfgs([1, 2]), [P], ["clean", "error"], ["transport", "stream", "reject"], 4 if q else 5, False, max_connects=2)
+    drive_client(ctx, r.stdout_path, "reasons-reconnect", "result,events", "whole", agg)
     r = tlc_client(ctx, "ClientBodyReset", cfgs([0, 1], body=("nil", "nobody", "getbody", "nogetbody", "failgetbody")), [P, P + ["data", "COLON", "y"]],
                    ["clean", "error"], ["transport", "stream"], 2, False)
     drive_client(ctx, r.stdout_path, "bodyreset", "result,body", "whole", agg)
@@ -196,6 +199,10 @@ def run_C12(ctx):
     q = ctx.quick
     r = tlc_client(ctx, "ClientBackoff", c12_cfgs(q), C12_BODIES, ["clean"], ["transport", "stream"], 4 if q else 5, False, timeout=3000)
     drive_client(ctx, r.stdout_path, "backoff", "result,waits", "whole", agg)
+    # a retry field takes effect when it is read, whether or not its block is ever dispatched (the connection dies before the blank line)
+    r = tlc_client(ctx, "ClientRetryUndispatched", [dict(maxRetries=2, initial=800000, mulNum=1, mulDen=1, maxInterval=0, jitter="none", body="nobody")],
+                   [["retry", "COLON", "d2", "LF"], P + ["retry", "COLON", "d3", "LF", "data", "COLON", "x"]], ["clean", "error", "erriou"], ["transport", "stream"], 3, False)
+    drive_client(ctx, r.stdout_path, "retry-undispatched", "result,waits", "whole,mid", agg)
     # Connect called again on the same Connection: every call has a backoff of its own (count and interval start over)
     rcfgs = [dict(maxRetries=mr, initial=800000, mulNum=2, mulDen=1, maxInterval=0, jitter="none", body="nobody") for mr in (1, 2)]
     r = tlc_client(ctx, "ClientBackoffReconnect", rcfgs, [P, retry_body(["d1"])], ["clean"], ["transport", "stream", "reject"], 4 if q else 5, False, max_connects=2)
